@@ -2,7 +2,7 @@
 CONSTANTS
   MaxH = 5
   MaxVer = 3
-  MaxOps = 10
+  MaxOps = 13
   InitH = 1
   Boundary = 2
   Genesis = FALSE
